@@ -19,6 +19,26 @@ CLAIMED = {
         "note": "Trusted: Lean kernel; goyacc LALR driver implements the extracted grammar; harness+driver. The specification is the model with the strictness switches of XPath 1.0 (no exponent, no '( )', no blanks in QNames) — three open known findings. An independent declarative grammar with a soundness/completeness theorem is not yet built.",
         "technique": "Lean 4 (regenerated table/grammar obligations by decide) + exhaustive small-scope differential correspondence",
     },
+    "C07": {
+        "text": "Lean 4 theorem that the (repaired) YANG lexer state machine terminates on every byte string and always ends its item stream with EOF or Error (induction with the measure 'remaining input', the only loop that had no measure — lexString at end of input — is the defect that was repaired; the unrepaired machine provably diverges on \"module\"), that the parser model never diverges; tied to /repo by differential execution of parse.Parse under a watchdog with a goroutine dump (leaks), over all texts <=3/4 bytes, every prefix of generated modules and random bytes.",
+        "note": "Trusted: Lean kernel; harness+driver; Go runtime reaping a finished goroutine. Parser fuel sufficiency and the line:col bounds are not yet theorems (correspondence only).",
+        "technique": "Lean 4 proof (lexer termination by induction on remaining input) + exhaustive small-scope / prefix / fuzz differential correspondence with watchdog and goroutine dump",
+    },
+    "C08": {
+        "text": "Lean 4 theorems: the code's Split-on-backslash escape substitution equals the left-to-right scan of the RFC's escapes for every text; escaping a value and decoding it gives the value back for every value (all three quotings, any quote column); the code's column stripping equals the specification's for every line and column. Tied to /repo by (value, quoting, layout) triples spelled into source text, parsed by the real parser and compared with the model and with an independent RFC 6020 §6.1.3 decoder written on the source pieces.",
+        "note": "Trusted: Lean kernel; harness+driver. The multi-line composition over all layouts is tested, not proved. RFC 6020 leaves the order of trimming and substitution open: such texts are compared implementation-vs-model only.",
+        "technique": "Lean 4 proof (algorithm = specification lemmas, round trip) + differential correspondence on generated source layouts",
+    },
+    "C09": {
+        "text": "Regenerated Lean obligations that every table the checker uses is the one in /repo; a kernel-checked comparison of the code's cardinality table with the RFC 6020 substatement tables cell by cell (decide over the whole table); iff-theorems for the cardinality checker, the section-order automaton and the revision-order check; and an exhaustive correspondence over EVERY (parent, child, multiplicity) triple, all section orders and per-kind argument probes on the real parser, compared with the model and with the RFC table / ABNF.",
+        "note": "Trusted: Lean kernel; the hand-written RFC tables; harness+driver; regexp / net/url. Open known finding: nested key paths. Argument lexers: model = ABNF by definition (the repaired code implements the ABNF); the tie is the probe stream.",
+        "technique": "Lean 4 (regenerated table obligations, decide +kernel table-vs-RFC comparison, iff proofs) + exhaustive differential correspondence",
+    },
+    "C10": {
+        "text": "Lean 4 lemmas that separators are invisible to the parser (any run of separator items), with the lexer-termination and argument-decoding theorems of C07/C08; tied to /repo by random statement trees spelled with trivia (blanks, line breaks, both comment forms containing statement punctuation) at every token boundary and a random quoting of every argument, the real parser's tree walk compared with the model and with the generated tree including line:column of every keyword.",
+        "note": "Trusted: Lean kernel; harness+driver. The full round-trip theorem parse∘spell = id is not proved: held by the correspondence stream (testing).",
+        "technique": "Lean 4 (separator-blindness lemma) + differential correspondence on generated trees x layouts x quotings",
+    },
     "C05": {
         "text": "Lean 4 theorems over the machine model: every program ending in store runs to a value xor an error; the error of the first failing instruction is the error of the run (a data-tree error is never replaced); a failing callback is reported as the tree's error. Tied to /repo by differential execution: all 1-2 byte inputs and random/mutated byte strings through the three New*Machine constructors under recover (a panic is an observation), and every supported path with the k-th data-tree callback failing for every k.",
         "note": "Trusted: Lean kernel; harness+driver. Build totality (no panic, mark inside the expression) is modelled with explicit panic/diverge outcomes and checked by correspondence; the Lean proof that these outcomes are unreachable (lexer byte-accounting invariant, parser fuel) is not yet done. path_eval: construction totality only.",
